@@ -14,6 +14,21 @@ let int_of_z = function Z0 -> 0 | Zpos p -> int_of_pos p | Zneg p -> - (int_of_p
 let rec nat_of_int n = if n <= 0 then O else S (nat_of_int (n - 1))
 let rec int_of_nat = function O -> 0 | S n -> 1 + int_of_nat n
 
+(* 64-bit values for the `pad` lines *)
+let rec pos_of_int64 (n : int64) = if n = 1L then XH else if Int64.logand n 1L = 1L then XI (pos_of_int64 (Int64.shift_right_logical n 1)) else XO (pos_of_int64 (Int64.shift_right_logical n 1))
+let z_of_int64 n = if n = 0L then Z0 else if n > 0L then Zpos (pos_of_int64 n) else Zneg (pos_of_int64 (Int64.neg n))
+let rec int64_of_pos = function XH -> 1L | XO p -> Int64.mul 2L (int64_of_pos p) | XI p -> Int64.add (Int64.mul 2L (int64_of_pos p)) 1L
+let int64_of_z = function Z0 -> 0L | Zpos p -> int64_of_pos p | Zneg p -> Int64.neg (int64_of_pos p)
+
+(* the model's padded length  l = rup2 (x + 1) - 1  (MSP.core), shown for every overload in whose range it lies *)
+let run_pad (x : int64) =
+  let l = Int64.to_string (int64_of_z (Z.sub (rup2 (Z.add (z_of_int64 x) (z_of_int 1))) (z_of_int 1))) in
+  let x1 = Int64.add x 1L in
+  let sh k = Int64.shift_left 1L k in
+  let f name ok = " " ^ name ^ ":" ^ (if ok then l else "-") in
+  print_endline ("pad " ^ Int64.to_string x ^ " =>" ^ f "int" (x1 <= sh 30) ^ f "uint" (x1 <= sh 31) ^ f "long" (x1 <= sh 62)
+                 ^ f "ulong" true ^ f "llong" (x1 <= sh 62) ^ f "ullong" true)
+
 let four = z_of_int 4
 let ltb_of = function
   | "L" -> (fun x y -> Z.ltb x y)
@@ -165,6 +180,7 @@ let () =
       match List.filter (fun s -> s <> "") (String.split_on_char ' ' line) with
       | ["one"; c; r; s] -> run_tuple c (parse_seqs s) (int_of_string r)
       | ["all"; c; s] -> run_tuple c (parse_seqs s) (-1)
+      | ["pad"; x] -> run_pad (Int64.of_string x)
       | ["exh"; c; m; lo; hi; keys] -> run_exh c (int_of_string m) (int_of_string lo) (int_of_string hi) (int_of_string keys)
       | [] -> ()
       | _ -> print_endline "?"
